@@ -21,11 +21,17 @@ structure Inst.WF (i : Inst) : Prop where
   noTxn_st : ∀ r a, i.noTxn r = true → i.fp r a = false
   size_le : i.size ≤ 8
 
-/-- `alu.Run` does not look at the PC (false for `s_getpc_b64`: `getpc_differs`) -/
+/-- `alu.Run` does not look at the PC (false for `s_getpc_b64`) -/
 def Inst.PcIndep (i : Inst) : Prop := ∀ p p' r, i.f p r = i.f p' r
 
+/-- only the scalar unit presents the emulator's PC to `alu.Run`; instructions of the other ALU
+    units must not look at it (none does) -/
+def Inst.PcOK (i : Inst) : Prop := ∀ u, i.kind = .alu u → u ≠ 0 → i.PcIndep
+
 structure Prog.WF (P : Prog) : Prop where
-  inst : ∀ l i, P.dec l = some i → i.WF ∧ i.PcIndep
+  /-- the repaired compute unit -/
+  fixed : P.oldCU = false
+  inst : ∀ l i, P.dec l = some i → i.WF ∧ i.PcOK
   /-- the decoder looks at the first `size` bytes only and needs them all -/
   pfx : ∀ l i, P.dec l = some i → i.size ≤ l.length ∧
     ∀ l', l'.take i.size = l.take i.size → P.dec l' = some i
@@ -70,7 +76,7 @@ def InvP (P : Prog) (ph : Phase) (cur : Option Inst) (pc : Nat) (trace : List Na
   | .ready => E.pc = pc ∧ E.trace = trace ∧ E.done = false
   | .issued => ∃ i, cur = some i ∧ P.instAt pc = some i ∧ E.pc = pc ∧ trace = E.trace ++ [pc] ∧ E.done = false
   | .executed => ∃ i, cur = some i ∧ (i.kind = .branch ∨ ∃ u, i.kind = .alu u) ∧
-      E.pc = pcAdd pc i.size ∧ trace = E.trace ∧ E.done = false
+      E.pc = (if i.kind = .alu 0 then pc else pcAdd pc i.size) ∧ trace = E.trace ∧ E.done = false
   | .done => E.done = true ∧ trace = E.trace ∧ vq = [] ∧ sq = []
 
 def PendOK (P : Prog) (p : Pend) : Prop :=
